@@ -473,6 +473,12 @@ func (r *Resolver) resolve(ctx context.Context, rs *resolveState) (*dns.Msg, err
 		} else {
 			r.clearResolutionZoneFailure(rs.req.Question[0], rs.servers.Zone)
 		}
+		if resp.Rcode == dns.RcodeNameError {
+			// A name error with nothing in it still claims the name does
+			// not exist. Under a signed zone that claim needs its proof like
+			// any other denial, so it goes through the same validation.
+			return r.authority(ctx, rs.req, resp, rs.parentDS, rs.servers.Zone)
+		}
 		return resp, nil
 	}
 
